@@ -62,6 +62,14 @@ def _g(t):
     return None if gt is None else gt.data
 
 
+def _setg(t, arr):
+    if hasattr(t, "_grad"):
+        t._grad = arr
+    else:
+        import synapgrad
+        t.grad = synapgrad.Tensor(arr)
+
+
 def _mode():
     """(gradient mode, retain mode or None when it cannot be observed) - by behaviour: a fresh product requires grad iff
     gradient mode is on; an intermediate result keeps its gradient after backward iff retain mode is on"""
